@@ -436,4 +436,6 @@ _inst_before_lemmas = instances
 
 def instances(tier):       # noqa: F811
     from .common import lemma_instance
-    return _inst_before_lemmas(tier) + [lemma_instance('C12', 'rayleigh', 'lemma:rayleigh-maximality-from-the-eigh-contract')]
+    return _inst_before_lemmas(tier) + [lemma_instance('C12', 'rayleigh', 'lemma:rayleigh-maximality-from-the-eigh-contract'),
+                                         lemma_instance('C12', 'beam', 'lemma:rayleigh-quotient-invariant-under-rescaling-for-every-D',
+                                                        ['quad_smul', 'rayleigh_scale_invariant'])]
